@@ -1,7 +1,8 @@
 /-
   C14 — the PyTorch STFT module computes what the NumPy computer computes: index-level content.
-  * framing: for every signal of at least `frame_length` samples the flipped-slice padding +
-    `as_strided` hands the spectrum exactly `compute_full`'s frames, and never reads outside its storage
+  * framing: for every signal the symmetric-index padding + `as_strided` hands the spectrum exactly
+    `compute_full`'s frames, and never reads outside its storage (`flip_pad_eq_symPad` is kept: the older
+    flipped-slice padding equals it whenever neither pad exceeds the signal)
   * the port's segment walk (after the repair: positive-index mirrored slice, DFT-size parity) visits
     exactly the NumPy walk's (bin, conj, tap) triples for every DFT size / start / length
   * empty result: `(0, num_filts + include_energy)` columns on both sides
@@ -49,38 +50,47 @@ theorem flip_pad_eq_symPad (x : List α) (pl pr : Nat) (hl : pl ≤ x.length) (h
         simp only [Option.getD_some]
         congr 1; simp [hl]; simp at h1; omega
 
-/-- **torch_frames_eq_numpy.** For `N ≥ frame_length` the PyTorch framing succeeds (no read outside the
-storage) and yields exactly `compute_full`'s frames. -/
-theorem torch_frames_eq_numpy (c : Cfg) (w : WF c) (x : List α) (h : c.L ≤ x.length) :
+theorem symPad_zero (x : List α) : symPad x 0 0 = x := by
+  rw [symPad_eq_seg]
+  apply List.ext_getElem (by simp)
+  intro i h1 h2
+  rw [seg_getElem]
+  unfold ext
+  rw [symIdx_mid _ _ (by omega) (by simp at h1; omega)]
+  simp only [List.getD_eq_getElem?_getD]
+  have : (-((0:Nat):Int) + (i:Int)).toNat = i := by omega
+  rw [this, List.getElem?_eq_getElem h2]; rfl
+
+/-- **torch_frames_eq_numpy.** For every signal long enough to yield a frame (`N ≥ L/2 + 1`; in particular the
+property's `N ≥ frame_length`) the PyTorch framing succeeds (no read outside the storage) and yields exactly
+`compute_full`'s frames. -/
+theorem torch_frames_eq_numpy (c : Cfg) (w : WF c) (x : List α) :
     TorchStft.frames c x = some (full c x) := by
   have hS := w.hS; have hSL := w.hSL
-  have hshort : ¬ x.length < c.L / 2 + 1 := by omega
   unfold TorchStft.frames full
+  by_cases hshort : x.length < c.L / 2 + 1
+  · simp [hshort]
   simp only [hshort, if_false]
   generalize hnf : (x.length + c.S / 2) / c.S = nf
   obtain ⟨d1, d2⟩ := div_facts (x.length + c.S / 2) c.S hS
   rw [hnf] at d1 d2
   have hnf1 : 1 ≤ nf := by
     rw [← hnf]; exact (Nat.le_div_iff_mul_le hS).mpr (by omega)
-  have hpl : padL c ≤ c.L / 2 := by
-    unfold padL; cases c.centered <;> cases c.kaldi <;> simp <;> omega
   have e : ((nf : Int) - 1) * c.S = (((nf - 1) * c.S : Nat) : Int) := by
     rw [Int.natCast_mul]; congr 1; omega
-  have hmul : (nf - 1) * c.S + c.S = c.S * nf := by
-    have : nf = (nf - 1) + 1 := by omega
-    conv => rhs; rw [this]
-    simp [Nat.mul_add, Nat.mul_comm]
   rw [e]
   generalize hq : (nf - 1) * c.S = q at *
-  have hpr : ((q : Int) - (padL c : Nat) + c.L - (x.length : Nat)).toNat ≤ x.length := by omega
-  rw [flip_pad_eq_symPad x _ _ (by omega) hpr]
+  generalize hpr : ((q : Int) - (padL c : Nat) + c.L - (x.length : Nat)).toNat = pr
+  have hpad : (if padL c = 0 ∧ pr = 0 then x else symPad x (padL c) pr) = symPad x (padL c) pr := by
+    split
+    · rename_i h; rw [h.1, h.2, symPad_zero]
+    · rfl
+  rw [hpad]
   unfold TorchStft.asStrided cut
-  have hlen : (symPad x (padL c) ((q : Int) - (padL c : Nat) + c.L - (x.length : Nat)).toNat).length
-      = padL c + x.length + ((q : Int) - (padL c : Nat) + c.L - (x.length : Nat)).toNat := by
-    simp [symPad]
+  have hlen : (symPad x (padL c) pr).length = padL c + x.length + pr := by simp [symPad]
   rw [hlen]
-  have : nf = 0 ∨ (nf - 1) * c.S + c.L ≤ padL c + x.length + ((q : Int) - (padL c : Nat) + c.L - (x.length : Nat)).toNat := by
-    right; rw [hq]; omega
+  have : nf = 0 ∨ (nf - 1) * c.S + c.L ≤ padL c + x.length + pr := by
+    right; rw [hq, ← hpr]; omega
   rw [if_pos this]
 
 /-- **torch_walk_eq_numpy_walk.** The port's walk equals the NumPy walk, hence (C02 `walk_covers`) the
@@ -114,8 +124,8 @@ example : WF { L := 4, S := 2, centered := true, kaldi := false } ∧ (4 : Nat) 
   ⟨⟨by decide, by decide⟩, by decide⟩
 example : TorchStft.frames { L := 4, S := 2, centered := true, kaldi := false } [1, 2, 3, 4, 5]
     = some (full { L := 4, S := 2, centered := true, kaldi := false } [1, 2, 3, 4, 5]) := by decide
-/-- outside the property's `N ≥ L` clause the port can run off its storage (reported, not a violation) -/
-example : TorchStft.frames { L := 8, S := 1, centered := false, kaldi := false } [1, 2, 3, 4, 5] = none := by
-  decide
+/-- a signal shorter than a frame (but long enough for one): the padding reflects more than once -/
+example : TorchStft.frames { L := 8, S := 1, centered := false, kaldi := false } [1, 2, 3, 4, 5]
+    = some (full { L := 8, S := 1, centered := false, kaldi := false } [1, 2, 3, 4, 5]) := by decide
 
 end PdsVerif.C14
